@@ -150,6 +150,14 @@ def integer(ctx, prog, F, b, ty):
                     continue            # another loop of the function (not the digit loop)
                 d = depth_of(init.get(C), B0)
                 groups.setdefault(d, []).append((p, init))
+    # every successful return comes out of the digit loop: a result produced on a path that never entered it (a delegation to
+    # another parser, a special-cased literal) is not covered by the recurrence and the exit table below
+    for p in paths:
+        if p.kind == "return" and isinstance(p.value, tuple) and p.value[0] == "agg" and p.value[1].endswith("Result::Ok#0") \
+                and not any(e[0] == "loop" and C in dict(e[2]) for e in p.events):
+            ctx.violation("REC", key + "|shortcut", "parse_%s returns Ok(%s) on a path that does not go through the digit loop" % (
+                ty, show(p.value[2])[:160]), b.file())
+            break
     want_groups = {1, 2} if signed else {1}
     if set(groups) != want_groups:
         ctx.violation("D3-SIGN", key, "parse_%s enters the digit loop after consuming %s leading bytes, expected %s "
